@@ -65,4 +65,8 @@ def Fmt5eMonotoneStatement : Prop :=
 def Fmt5eNegStatement : Prop :=
   ∀ k : Int, 0 < k → fmt5e (-k) = 45 :: fmt5e k
 
+/-- the same for the `'{:.8f}'` text of the record headers -/
+def Fmt8NegStatement : Prop :=
+  ∀ k : Int, 0 < k → fmt8 (-k) = 45 :: fmt8 k
+
 end Depccg.NumProps
